@@ -197,6 +197,15 @@ fn build(seeds: &[u16]) -> (CfgSpec, Vec<(String, String, bool)>, Vec<String>, S
                 script.push((obs.clone(), "PART #pub0".into(), false));
             }
         }
+        // sometimes there is a channel from the configuration which the observer has been the only
+        // (hence last) member of and has left again; the hidden user sits there now: the observer
+        // shares nothing with it
+        if s.chance(25) {
+            cfg.channels.push(crate::cfgspec::ChanSpec { name: "#cfgp".into(), flags: ["", "n", "nt"][s.pick(3)].into(), ..Default::default() });
+            script.insert(0, (obs.clone(), "JOIN #cfgp".into(), false));
+            script.insert(1, (obs.clone(), ["PART #cfgp", "PART #cfgp :bye"][s.pick(2)].into(), false));
+            script.push((h.clone(), "JOIN #cfgp".into(), true));
+        }
         if s.chance(30) {
             script.push((h.clone(), "AWAY :hidden away".into(), true));
         }
@@ -213,6 +222,8 @@ fn build(seeds: &[u16]) -> (CfgSpec, Vec<(String, String, bool)>, Vec<String>, S
             "WHO *Real*".to_string(),
             "WHO #pub0".to_string(),
             "WHO #hid".to_string(),
+            "WHO #cfgp".to_string(),
+            "NAMES #cfgp".to_string(),
             "NAMES".to_string(),
             "NAMES #pub0".to_string(),
             "NAMES #hid".to_string(),
